@@ -17,7 +17,7 @@ import sys
 import tempfile
 
 VERIF = os.path.dirname(os.path.dirname(os.path.abspath(__file__)))
-KINDS = ["unparse", "ifswap", "cmpswap", "augexpand", "nest", "flat", "rename"]
+KINDS = ["unparse", "ifswap", "cmpswap", "augexpand", "nest", "flat", "rename", "kwargs", "posargs", "temps"]
 
 
 def term(block):
@@ -117,15 +117,95 @@ class Rename(ast.NodeTransformer):
         return n
 
 
+def signatures(root):
+    """module-level functions of the package with a unique name -> positional parameter names (no *args / defaults-only)."""
+    seen = {}
+    for p in glob.glob(root + "/src/dpapi_ng/**/*.py", recursive=True):
+        for n in ast.parse(open(p).read()).body:
+            if isinstance(n, (ast.FunctionDef, ast.AsyncFunctionDef)):
+                seen.setdefault(n.name, []).append(n)
+    out = {}
+    for name, defs in seen.items():
+        if len(defs) == 1 and not defs[0].args.vararg and not defs[0].args.kwarg and not defs[0].args.posonlyargs:
+            out[name] = [a.arg for a in defs[0].args.args]
+    return out
+
+
+class KwArgs(ast.NodeTransformer):
+    def __init__(self, sigs, kind):
+        self.sigs, self.kind = sigs, kind
+
+    def visit_Call(self, n):
+        self.generic_visit(n)
+        if isinstance(n.func, ast.Name) and n.func.id in self.sigs and not any(isinstance(a, ast.Starred) for a in n.args) and not any(k.arg is None for k in n.keywords):
+            params = self.sigs[n.func.id]
+            if self.kind == "kwargs" and len(n.args) <= len(params):
+                n.keywords = [ast.keyword(arg=p, value=a) for p, a in zip(params, n.args)] + n.keywords
+                n.args = []
+            elif self.kind == "posargs":
+                given = {k.arg: k.value for k in n.keywords}
+                args = list(n.args)
+                while len(args) < len(params) and params[len(args)] in given:
+                    args.append(given.pop(params[len(args)]))
+                n.args = args
+                n.keywords = [k for k in n.keywords if k.arg in given]
+        return n
+
+
+def tempify(fn):
+    """x = f(g(a), h(b)) -> t1 = g(a); t2 = h(b); x = f(t1, t2)   (simple statements; the other arguments are pure)."""
+    counter = [0]
+
+    def pure(e):
+        return not any(isinstance(n, (ast.Call, ast.Await, ast.Yield, ast.YieldFrom, ast.NamedExpr, ast.ListComp, ast.GeneratorExp, ast.DictComp, ast.SetComp, ast.Lambda, ast.IfExp, ast.BoolOp)) for n in ast.walk(e))
+
+    def block(stmts):
+        out = []
+        for s in stmts:
+            for f in ("body", "orelse", "finalbody"):
+                if hasattr(s, f) and isinstance(getattr(s, f), list) and getattr(s, f) and isinstance(getattr(s, f)[0], ast.stmt) and not isinstance(s, (ast.FunctionDef, ast.AsyncFunctionDef, ast.ClassDef)):
+                    setattr(s, f, block(getattr(s, f)))
+            if isinstance(s, ast.Try):
+                for h in s.handlers:
+                    h.body = block(h.body)
+            v = getattr(s, "value", None) if isinstance(s, (ast.Assign, ast.Return, ast.Expr, ast.AnnAssign)) else None
+            if isinstance(v, ast.Call) and pure(v.func) and not any(isinstance(a, ast.Starred) for a in v.args) and all(k.arg for k in v.keywords):
+                items = list(v.args) + [k.value for k in v.keywords]
+                if all(pure(a) or (isinstance(a, ast.Call) and pure(a.func) and all(pure(x) for x in list(a.args) + [k.value for k in a.keywords])) for a in items) and any(isinstance(a, ast.Call) for a in items):
+                    pre = []
+                    def tmp(a):
+                        if isinstance(a, ast.Call):
+                            counter[0] += 1
+                            name = f"tmp_{counter[0]}"
+                            pre.append(ast.copy_location(ast.Assign(targets=[ast.Name(id=name, ctx=ast.Store())], value=a), s))
+                            return ast.copy_location(ast.Name(id=name, ctx=ast.Load()), a)
+                        return a
+                    v.args = [tmp(a) for a in v.args]
+                    for k in v.keywords:
+                        k.value = tmp(k.value)
+                    out.extend(pre)
+            out.append(s)
+        return out
+
+    fn.body = block(fn.body)
+
+
 def transform(kind, root):
+    sigs = signatures(root) if kind in ("kwargs", "posargs") else {}
     for p in glob.glob(root + "/src/dpapi_ng/**/*.py", recursive=True):
         tree = ast.parse(open(p).read())
+        if kind in ("kwargs", "posargs"):
+            tree = KwArgs(sigs, kind).visit(tree)
         if kind in ("ifswap", "cmpswap", "augexpand"):
             tree = Swap(kind).visit(tree)
         elif kind in ("nest", "flat"):
             for fn in ast.walk(tree):
                 if isinstance(fn, (ast.FunctionDef, ast.AsyncFunctionDef)):
                     fn.body = nest(fn.body, kind)
+        elif kind == "temps":
+            for fn in ast.walk(tree):
+                if isinstance(fn, (ast.FunctionDef, ast.AsyncFunctionDef)) and not isinstance(fn, ast.AsyncFunctionDef):
+                    tempify(fn)
         elif kind == "rename":
             for fn in ast.walk(tree):
                 if isinstance(fn, (ast.FunctionDef, ast.AsyncFunctionDef)):
